@@ -381,7 +381,7 @@ func (p *c08) RunCase(i int) *core.CaseResult {
 
 func (p *c08) Meta() core.Meta {
 	return core.Meta{
-		Rule:        "one case per (query, kind): 36 filter / projection queries (every WHERE operator family, non-idempotent select lists such as a+1 AS a, star plus expression, CASE, function calls, whole-table aggregates evaluated per row, GETVAR / SETVAR / CONSTANT under WithVars and WithConstants, ASYNC and AWAIT items, operands that navigate back to the document with `<-`) run on a FROM path that resolves to arrays of arrays: every outer array of 1..2 (thorough 3) inner arrays, each any sequence of <= 2 rows over 3 archetypes (ragged, empty), plus depth-3 and depth-4 nestings (incl. levels with exactly as many arrays as their parent has elements, and empty arrays next to deeper ones) and mixed-depth sources (rows next to inner arrays); the nested result must equal the per-inner-array executions of the same query, and `mix=>` + one query must equal their concatenation; both also with the source given as a range with an open end (`m[(1:end)]`, `mix=>m[(1:end)]`, and the same with keep=>) over outer arrays of different lengths in one process. non-trivial = some inner result is non-empty",
+		Rule:        "one case per (query, kind): 36 filter / projection queries (every WHERE operator family, non-idempotent select lists such as a+1 AS a, star plus expression, CASE, function calls, whole-table aggregates evaluated per row, GETVAR / SETVAR / CONSTANT under WithVars and WithConstants, ASYNC and AWAIT items, operands that navigate back to the document with `<-`) run on a FROM path that resolves to arrays of arrays: every outer array of 1..2 (thorough 3) inner arrays, each any sequence of <= 2 rows over 3 archetypes (ragged, empty), plus depth-3 and depth-4 nestings (incl. levels with exactly as many arrays as their parent has elements, and empty arrays next to deeper ones) and mixed-depth sources (rows next to inner arrays); the nested result must equal the per-inner-array executions of the same query, and `mix=>` + one query must equal their concatenation; both also with the source given as a range with an open end (`m[(1:end)]`, `mix=>m[(1:end)]`, and the same with keep=>) over outer arrays of different lengths in one process. non-trivial = some inner result is non-empty; one changed-between-executions case (5 queries x 3 documents x 9 changes of the nested source between two executions of one Query, against a fresh Query)",
 		Assumptions: []string{"only WHERE and the select list are claimed for nested sources (the property's statement); ORDER BY / LIMIT / aggregates over nested sources are not exercised"},
 		Bounds:      map[string]any{"queries": len(c08Queries), "documents": len(p.docs)},
 		Exhaustive:  true,
